@@ -207,20 +207,52 @@ func checkC15(c *c15Case) (ds []hx.Discrepancy, info map[string]bool) {
 				}
 			}
 		}
-		if ext.Len() > 0 && root.ParseString(ext.String()) == nil {
-			info["printed-again-after-a-later-load"] = true
+		printAfter := func(extText, trait string) {
+			info[trait] = true
 			dx := Describe(root, o)
 			px := root.SDL(false, true)
 			if fx, errx, panx := loadFresh(px); panx != nil || errx != nil {
-				add("printed-sdl-rejected", "", "the SDL printed after a later load (%s) is not accepted: %v %v\n%s", strings.TrimSpace(ext.String()), errx, panx, px)
+				add("printed-sdl-rejected", "", "the SDL printed after a later load (%s) is not accepted: %v %v\n%s", strings.TrimSpace(extText), errx, panx, px)
 			} else {
 				if d := Describe(fx, o); d != dx {
-					add("printed-sdl-differs", "", "the SDL printed after a later load defines a different schema: %s\n--- later load\n%s\n--- printed\n%s", firstDiff(dx, d), ext.String(), px)
+					add("printed-sdl-differs", "", "the SDL printed after a later load defines a different schema: %s\n--- later load\n%s\n--- printed\n%s", firstDiff(dx, d), extText, px)
 				}
 				if px2 := fx.SDL(false, true); px2 != px {
-					add("print-not-stable", "", "after a later load, printing the re-parsed schema gives different text: %s\n--- later load\n%s\n--- print of the root\n%s\n--- print of the re-parsed schema\n%s", firstDiff(px, px2), ext.String(), px, px2)
+					add("print-not-stable", "", "after a later load, printing the re-parsed schema gives different text: %s\n--- later load\n%s\n--- print of the root\n%s\n--- print of the re-parsed schema\n%s", firstDiff(px, px2), extText, px, px2)
 				}
 			}
+		}
+		if ext.Len() > 0 && root.ParseString(ext.String()) == nil {
+			printAfter(ext.String(), "printed-again-after-a-later-load")
+		}
+		// a later load that gives an interface a field only some of its implementers get too: accepted or
+		// (as it should be) refused, what the root prints afterwards is a schema a fresh root accepts
+		for _, t := range root.Types() {
+			it, ok := t.(*ggql.Interface)
+			if !ok || it.Core() {
+				continue
+			}
+			var impl []string
+			for _, t2 := range root.Types() {
+				if ot, ok := t2.(*ggql.Object); ok {
+					for _, i := range ot.Interfaces {
+						if i.Name() == it.Name() {
+							impl = append(impl, ot.Name())
+						}
+					}
+				}
+			}
+			if len(impl) < 2 {
+				continue
+			}
+			var half strings.Builder
+			fmt.Fprintf(&half, "extend interface %s { zqHalf: Int }\n", it.Name())
+			for _, on := range impl[:len(impl)-1] {
+				fmt.Fprintf(&half, "extend type %s { zqHalf: Int }\n", on)
+			}
+			_ = root.ParseString(half.String())
+			printAfter(half.String(), "printed-again-after-a-load-extending-an-interface-for-some-implementers")
+			break
 		}
 	}
 	if strings.Contains(d0, "\\\"") || strings.Contains(d0, "\\\\") || strings.Contains(d0, "\\n") {
